@@ -479,6 +479,12 @@ def signature(small):
     kinds = []
     for o in small:
         w = o.split()
+        if len(w) >= 4 and w[1] == "insn" and w[3] == "0" or len(w) == 3 and w[1] == "insr":
+            return "insert-zero-count"      # insert(pos, 0, v) / insert(pos, first, first)
+        if len(w) >= 5 and w[0] == "m" and w[2] == "insn" and w[4] == "0" or len(w) == 4 and w[0] == "m" and w[2] == "insr":
+            return "insert-zero-count"
+    for o in small:
+        w = o.split()
         k = w[1] if w[0] in ("A", "B") else (w[2] if w[0] == "m" and len(w) > 2 else w[0])
         if k == "insn" and len(w) >= 4 and w[3] == "0":
             k = "insert-zero-count"
